@@ -14,6 +14,8 @@ TEXTBOOK = {
     "dangling-else": 'grammar g; start = s; s = "if" "e" "then" s | "if" "e" "then" s "else" s | "x";',
     "dangling-else-resolved": 'grammar g; @right "else" "then"; start = s; s = "if" "e" "then" s | "if" "e" "then" s "else" s | "x";',
     "ambiguous-expr": 'grammar g; start = e; e = e "+" e | e "*" e | "id";',
+    "dangling-else-empty-handle": 'grammar ifelse; @right "else" <else_part = >; start = stmt; stmt = "if" "c" "then" stmt else_part | "x"; else_part = "else" stmt | ;',
+    "dangling-else-empty-handle-two-lines": 'grammar ifelse; @left "else"; @left <else_part = >; start = stmt; stmt = "if" "c" "then" stmt else_part | "x"; else_part = "else" stmt | ;',
     "rule-handle-alternatives-first": 'grammar g; @left <e = e e | e o e>; @left "x" "(" "+" "-"; start = e; e = e e | e o e | "x" | "(" e ")"; o = "+" | "-";',
     "rule-handle-alternatives-later": 'grammar g; @left "x" <e = e e | e o e>; @left "(" "+" "-"; start = e; e = e e | e o e | "x" | "(" e ")"; o = "+" | "-";',
     "ambiguous-resolved": 'grammar g; @left "*"; @left "+"; start = e; e = e "+" e | e "*" e | "(" e ")" | "id";',
